@@ -137,7 +137,7 @@ func c15c(c *Ctx) {
 			continue
 		}
 		var glob, loc []writeSite
-		for _, ws := range writeSites(fn) {
+		for _, ws := range c.sitesOf(fn) {
 			if !ws.isFmt {
 				continue
 			}
@@ -145,7 +145,7 @@ func c15c(c *Ctx) {
 			case "%s::\n":
 				glob = append(glob, ws)
 			case "%s:\n":
-				if len(ws.args) == 1 && c.term(fn, ws.args[0]) == s.name {
+				if len(ws.argT) == 1 && ws.argT[0] == s.name {
 					loc = append(loc, ws)
 				}
 			}
@@ -156,10 +156,10 @@ func c15c(c *Ctx) {
 			g := glob[0]
 			pos := c.W.Pos(g.call.Pos())
 			name := ""
-			if len(g.args) == 1 {
-				name = c.term(fn, g.args[0])
+			if len(g.argT) == 1 {
+				name = g.argT[0]
 			}
-			must := c.mustLits(fn, g.call.Block())
+			must := siteMust(g)
 			ok := name == s.name
 			why := ""
 			if !ok {
@@ -174,7 +174,7 @@ func c15c(c *Ctx) {
 			// no additional guard may restrict it (other than enclosing unrelated conditions): the
 			// reaching condition must be exactly the conjunction
 			if ok {
-				gotD := c.PC(fn).canonOf(c.PC(fn).At(g.call.Block()))
+				gotD := g.cond
 				if !dnfEquiv(gotD, mkDNF(sortedPlus(s.guard))) {
 					ok = false
 					why = fmt.Sprintf("'::' form reached under %s, expected exactly %s", gotD, strings.Join(s.guard, " && "))
@@ -194,7 +194,7 @@ func c15c(c *Ctx) {
 				parts = append(parts, "!"+g)
 			}
 			want := strings.Join(parts, " || ")
-			gotD := c.PC(fn).canonOf(c.PC(fn).At(l.call.Block()))
+			gotD := l.cond
 			got := gotD.String()
 			eq := dnfEquiv(gotD, mkDNF(conjs...))
 			c.Check(eq, s.fn+"/local-form", c.W.Pos(l.call.Pos()), "':' written exactly when the scope flag is off", fmt.Sprintf("':' form reached under %s, expected %s", got, want))
@@ -247,22 +247,24 @@ func c15d(c *Ctx) {
 		allowed[s.fn] = true
 	}
 	n := 0
-	for _, fn := range c.W.FuncsOf("emitter") {
-		for _, ws := range writeSites(fn) {
-			if !strings.Contains(ws.format, "::") {
-				continue
-			}
-			n++
-			key := c.W.FuncKey(fn)
-			anchor := anchorOf(c.W, fn)
-			c.Check(allowed[anchor], key+"/exported-format", c.W.Pos(ws.call.Pos()), "'::' format belongs to a scope-checked label site", "a label is exported ('::' in format "+q(ws.format)+") outside the scope-checked sites")
+	duties := c.siteDuties(c.W.FuncsOf("emitter"),
+		func(ws writeSite) bool { return strings.Contains(ws.format, "::") },
+		func(fn *ssa.Function, ws writeSite) bool { return allowed[anchorOf(c.W, fn)] })
+	for _, d := range duties {
+		n++
+		key := c.W.FuncKey(d.fn)
+		pos := c.W.Pos(d.ws.call.Pos())
+		if d.transferred {
+			c.OK(key+"/exported-format-by-callers", pos, "'::' format in a label-writing helper; every caller is a scope-checked label site (C15.c sees the write inlined)")
+			continue
 		}
+		c.Check(d.ok, key+"/exported-format", pos, "'::' format belongs to a scope-checked label site", "a label is exported ('::' in format "+q(d.ws.format)+") outside the scope-checked sites")
 	}
 	// (2) table labels are local
 	if fn := c.Fn("emitter.Emitter.emitMapScriptStatement"); fn != nil {
 		found := false
-		for _, ws := range writeSites(fn) {
-			if ws.isFmt && ws.format == "%s:\n" && len(ws.args) == 1 && strings.HasSuffix(c.term(fn, ws.args[0]), ".Name") && !strings.HasSuffix(c.term(fn, ws.args[0]), ".Name.Value") {
+		for _, ws := range c.sitesOf(fn) {
+			if ws.isFmt && ws.format == "%s:\n" && len(ws.argT) == 1 && strings.HasSuffix(ws.argT[0], ".Name") && !strings.HasSuffix(ws.argT[0], ".Name.Value") {
 				found = true
 				c.OK("emitMapScriptStatement/table-label", c.W.Pos(ws.call.Pos()), "table label written with ':'")
 			}
